@@ -36,13 +36,14 @@ ApplyEdit(m, e) ==
     [] e.op = "add_column"   -> [m EXCEPT !.tables[e.t].cols = Append(@, e.col)]
     [] e.op = "add_index"    -> [m EXCEPT !.tables[e.t].idxs = Append(@, e.idx)]
     [] e.op = "remove_index" -> [m EXCEPT !.tables[e.t].idxs = RemoveAt(@, e.x)]
+    [] e.op = "dup_index"    -> [m EXCEPT !.tables[e.t].idxs = Append(@, @[e.x])]      \* a second index equal to index x
     [] e.op = "add_enum_item" -> [m EXCEPT !.enums[e.e].items = Append(@, e.item)]
     [] e.op = "skip"         -> m
 
 \* (flag edits are listed several times: the layout of PRIMARY KEY clauses depends on how many pk columns a table has)
 EditOps == <<"table_name", "table_schema", "table_alias", "table_note", "col_name", "col_type", "col_flag", "col_flag", "col_flag", "col_default",
              "col_note", "enum_name", "ref_type", "ref_inline", "ref_name", "ref_actions", "add_column", "add_index",
-             "remove_index", "add_enum_item">>
+             "remove_index", "remove_index", "dup_index", "add_enum_item">>
 
 \* the i-th edit of a seed, chosen in the current model m (positions must exist; otherwise "skip")
 ChooseEdit(sd, i, m) ==
@@ -80,7 +81,11 @@ ChooseEdit(sd, i, m) ==
     [] op = "add_index"    -> [op |-> op, t |-> t,
                                idx |-> [subj |-> <<[k |-> "col", i |-> c]>>, name |-> IF Coin(sd, K(50 + i, 0, 5), 50) THEN fresh ELSE "",
                                         unique |-> Coin(sd, K(50 + i, 0, 6), 50), pk |-> FALSE, type |-> Pick(sd, K(50 + i, 0, 7), IdxTypes), note |-> "", comment |-> ""]]
-    [] op = "remove_index" -> IF m.tables[t].idxs = <<>> THEN skip ELSE [op |-> op, t |-> t, x |-> Num(sd, K(50 + i, 0, 5), 1, Len(m.tables[t].idxs))]
+    [] op = "remove_index" -> IF m.tables[t].idxs = <<>> THEN skip
+                              \* mostly the LAST index (an equal twin, if there is one, then sits before it)
+                              ELSE [op |-> op, t |-> t, x |-> IF Coin(sd, K(50 + i, 0, 6), 60) THEN Len(m.tables[t].idxs)
+                                                              ELSE Num(sd, K(50 + i, 0, 5), 1, Len(m.tables[t].idxs))]
+    [] op = "dup_index"    -> IF m.tables[t].idxs = <<>> THEN skip ELSE [op |-> op, t |-> t, x |-> Num(sd, K(50 + i, 0, 5), 1, Len(m.tables[t].idxs))]
     [] op = "add_enum_item" -> IF m.enums = <<>> THEN skip
                                ELSE [op |-> op, e |-> Num(sd, K(50 + i, 0, 5), 1, Len(m.enums)), item |-> [name |-> fresh, note |-> "", comment |-> ""]]
 
